@@ -3,6 +3,7 @@ import Mathlib.Data.Matrix.Mul
 import Mathlib.Tactic.Linarith
 import Mathlib.Tactic.Ring
 import Mathlib.Tactic.Abel
+import Mathlib.Data.List.Induction
 import QibProofs.Lemmas.PauliMat
 /-!
 Core D: operator level. `PauliOp.matG mat φ op = Σ φ(weight) • mat(string)` for an arbitrary denotation
@@ -110,3 +111,69 @@ noncomputable def PauliOp.adds {α : Type} (φ : α → ℂ) (n : ℕ) (h : List
     Matrix (Fin n → Bool) (Fin n → Bool) ℂ := PauliOp.addsG (PS.mat n) φ h
 
 end Qib.Pauli
+
+/-! ### the pruning loop and its closed form -/
+
+namespace Qib.Pauli.PauliOp
+variable {α : Type}
+
+/-- state of the pruning loop: `pre` still to be visited (from its end), `suf` already visited -/
+def closed (isZ : α → Bool) : PauliOp α → PauliOp α → PauliOp α
+  | [], suf => suf
+  | e :: rest, suf =>
+    let kept := rest.filter (fun p => !isZ p.2) ++ suf
+    if isZ e.2 && !kept.isEmpty then kept else e :: kept
+
+theorem closed_snoc (isZ : α → Bool) (pre : PauliOp α) (e : PS × α) (suf : PauliOp α) :
+    closed isZ (pre ++ [e]) suf =
+      if isZ e.2 && decide ((pre ++ e :: suf).length > 1) then closed isZ pre suf else closed isZ pre (e :: suf) := by
+  cases pre with
+  | nil =>
+    cases suf with
+    | nil => cases h : isZ e.2 <;> simp [closed, h]
+    | cons s suf => cases h : isZ e.2 <;> simp [closed, h]
+  | cons a p =>
+    have hpos : decide ((a :: p ++ e :: suf).length > 1) = true := by simp; omega
+    rw [hpos, Bool.and_true]
+    cases h : isZ e.2
+    · have hk : (p ++ [e]).filter (fun p => !isZ p.2) ++ suf = p.filter (fun p => !isZ p.2) ++ e :: suf := by
+        simp [List.filter_append, h]
+      simp only [closed, List.cons_append, Bool.false_eq_true, if_false]
+      rw [hk]
+    · have hk : (p ++ [e]).filter (fun p => !isZ p.2) ++ suf = p.filter (fun p => !isZ p.2) ++ suf := by
+        simp [List.filter_append, h]
+      simp only [closed, List.cons_append, if_true]
+      rw [hk]
+
+theorem go_eq_closed (isZ : α → Bool) (pre suf : PauliOp α) :
+    removeZeroLoop.go isZ pre.length (pre ++ suf) = closed isZ pre suf := by
+  induction pre using List.reverseRecOn generalizing suf with
+  | nil => simp [removeZeroLoop.go, closed]
+  | append_singleton pre e ih =>
+    have hlen : (pre ++ [e]).length = pre.length + 1 := by simp
+    rw [hlen, removeZeroLoop.go]
+    have hget : (pre ++ [e] ++ suf)[pre.length]? = some e := by
+      simp [List.append_assoc]
+    rw [hget]
+    simp only
+    rw [closed_snoc]
+    have herase : (pre ++ [e] ++ suf).eraseIdx pre.length = pre ++ suf := by
+      rw [List.append_assoc, List.eraseIdx_append_of_length_le (Nat.le_refl _)]
+      simp
+    have hl : (pre ++ [e] ++ suf).length = (pre ++ e :: suf).length := by simp
+    by_cases hc : (isZ e.2 && decide ((pre ++ e :: suf).length > 1)) = true
+    · rw [if_pos hc, if_pos (by rw [hl]; exact hc), herase, ih]
+    · rw [if_neg hc, if_neg (by rw [hl]; exact hc)]
+      have : pre ++ [e] ++ suf = pre ++ (e :: suf) := by simp
+      rw [this, ih]
+
+/-- the closed form used in the theorems is the loop of `remove_zero_weight_strings` -/
+theorem removeZeroLoop_eq (isZ : α → Bool) (op : PauliOp α) : removeZeroLoop isZ op = removeZero isZ op := by
+  have := go_eq_closed isZ op []
+  rw [List.append_nil] at this
+  rw [removeZeroLoop, this]
+  cases op with
+  | nil => rfl
+  | cons e rest => simp only [closed, removeZero, List.append_nil]
+
+end Qib.Pauli.PauliOp
